@@ -173,6 +173,7 @@ class Program(object):
     def _add(self, name: str, path: str, is_pkg: bool):
         rel = os.path.relpath(path, self.root)
         self.modules[name] = Module(name, path, rel, is_pkg)
+        self.modules[name].program = self
 
     def _discover(self):
         base = os.path.join(self.root, "moclo", "moclo")
